@@ -3,7 +3,7 @@
 import json, sys
 pid, wt = sys.argv[1], sys.argv[2]
 p = next(json.loads(l) for l in open('/verif/properties.jsonl') if json.loads(l)['id'] == pid)
-print(f"""You are testing how well a verification suite detects regressions in the Rust SDK contentauth/c2pa-rs. You work ONLY inside your own scratch git worktree of the repository at {wt} (already created; it has its own cargo target directory {wt}/target, pre-seeded with compiled dependencies, so `cargo` builds there are incremental; always pass `--offline`; the machine has no network). Do not read or write anything under /verif or /repo, and do not look for existing verification tooling — your change must be independent of it.
+print(f"""You are testing how well a verification suite detects regressions in the Rust SDK contentauth/c2pa-rs. You work ONLY inside your own scratch git worktree of the repository at {wt} (already created; ALWAYS run cargo with the environment variable `CARGO_TARGET_DIR=/tmp/brk-target` — a shared target directory pre-seeded with compiled dependencies, so builds are incremental; other agents use it too, so cargo may wait for its lock, which is normal; always pass `--offline`; the machine has no network). Do not read or write anything under /verif or /repo, and do not look for existing verification tooling — your change must be independent of it.
 
 The property of the SDK under study:
 
@@ -20,6 +20,6 @@ For EACH of the two changes deliver, in a directory {wt}/out/<n>/ (n = 1, 2):
   3. Evidence that existing tests still pass WITH the change: at least run the unit/integration tests of the modules you touched and closely related ones, e.g. `cargo test --offline -p c2pa --lib <module_path>` and any relevant `--test` targets (and `-p c2patool` / `-p c2pa-c-ffi` if you touched those crates); save the summary lines as `tests_with.txt`. (The full workspace suite takes ~15 minutes; run it if you can afford it — `cargo test --offline -p c2pa --lib` alone is ~5 minutes — otherwise say exactly what you ran. Some tests need the network and fail on the unmodified tree too: compare against the unmodified tree before blaming your change.)
   4. `meta.json`: {{"property": "{pid}", "summary": "...what the change does...", "needs": "...what specific input/sequence/configuration makes it manifest...", "files": [...], "ran": ["commands you ran"]}}.
 
-Build hints: first build in the worktree with `cd {wt} && cargo build --offline -p c2pa` (incremental thanks to the pre-seeded target dir; if cargo insists on rebuilding everything, let it — about 6–8 minutes). Feature flags: tests for file-based APIs need `--features file_io`. Other agents share this 16-core machine: run at most one cargo command at a time.
+Build hints: first build in the worktree with `cd {wt} && CARGO_TARGET_DIR=/tmp/brk-target cargo build --offline -p c2pa` (incremental thanks to the pre-seeded target dir; if cargo insists on rebuilding everything, let it — about 6–8 minutes). Feature flags: tests for file-based APIs need `--features file_io`. Other agents share this 16-core machine: run at most one cargo command at a time.
 
 Finish with a short report: for each change, what it breaks, why the existing tests do not notice, and how the demonstration triggers it.""")
